@@ -115,7 +115,19 @@ UNITS = [
     ("netaddr/contrib/subnet_splitter.py", "pysrc_splitter_gen.v", "", " Model.SrcPreludeSplitter",
      [("SubnetSplitter", "available_subnets", {}), ("SubnetSplitter", "remove_subnet", {"ip_network": "net"}),
       ("SubnetSplitter", "extract_subnet", {"prefix": "int", "count": "optint"})]),
+    # IPListMixin indexing / len for the two receiver classes; `__getitem__:int` / `__getitem__:slice` are the two specialisations
+    # of __getitem__ by the declared type of `index` (`hasattr(index, 'indices')` is decided by that type)
+    (IPFILE, "pysrc_listlike_gen.v", "", " Model.PySlice Model.ListLike",
+     [(c, m, t) for c in ("IPNetwork", "IPRange") for m, t in (
+         ("__len__", {}), ("__getitem__:int", {"index": "int"}), ("__getitem__:slice", {"index": "slice"}))]),
 ]
+# names imported from netaddr.compat that a unit may read: output file -> {name: (type, Coq term)}; the term must be defined by
+# the modules the unit `Require`s (Model/PySlice.v: ssize_max = sys.maxsize of the 64-bit platform the check runs on).
+# compat_ok() checks that netaddr/compat.py still binds the name to one of the expressions listed here.
+UNIT_NAMES = {"pysrc_listlike_gen.v": {"_sys_maxint": ("int", "ssize_max")}}
+COMPAT = {"_sys_maxint": ("_sys.maxsize", "_sys.maxint"), "_iter_range": ("range", "xrange")}
+# hasattr(<parameter>, <name>) by the declared type of the parameter
+HASATTR = {("int", "indices"): False, ("slice", "indices"): True, ("int", "__iter__"): False, ("list", "__iter__"): True}
 FILES = FILES + tuple(u[1] for u in UNITS)
 # classes whose object state is a set of attributes read and written like locals: (attribute, type) in parameter order.  A method
 # that assigns one of them (or calls a method that does) returns the new state: alone if it returns no value, else (state, value).
@@ -131,7 +143,7 @@ RESERVED = set("ver w v p s e in let if then else match with end fun forall exis
                "SInt Z bool list option outcome net sarg nil cons nver nval nplen rev app map fuel xs nat unit tt O S "
                "py_pop operand OAddr ONet ORng OOther struct "
                "py_nonempty py_sorted_desc py_set_remove py_set_of_list py_set_union py_flat_map_o net_key_eqb py_list_subnet "
-               "py_cidr_merge inl inr sum "
+               "py_cidr_merge inl inr sum py_except ssize_max py_slice_indices py_range_len iterator ItEmpty ItIprange "
                # constructors / constants of the Coq prelude: a pattern variable of that name would be read as the constructor
                "left right inl inr pair tt I conj eq_refl xH xO xI Z0 Zpos Zneg Lt Gt Eq ex_intro exist inleft inright "
                "Build_net AddrFormatError AddrConversionError ValueError TypeError IndexError KeyError StructError "
@@ -142,7 +154,8 @@ ARITH = {ast.Add: "(%s + %s)", ast.Sub: "(%s - %s)", ast.Mult: "(%s * %s)", ast.
 CMP = {ast.Lt: "(%s <? %s)", ast.LtE: "(%s <=? %s)", ast.Gt: "(%s >? %s)", ast.GtE: "(%s >=? %s)", ast.Eq: "(%s =? %s)",
        ast.NotEq: "(negb (%s =? %s))"}
 COQTY = {"int": "Z", "bool": "bool", "tuple": "(list Z)", "obj": "(Z * Z)", "net": "net", "self": "Z", "sarg": "sarg",
-         "operand": "operand", "unit": "unit", "optint": "(option Z)"}
+         "operand": "operand", "unit": "unit", "optint": "(option Z)", "slice": "(option Z * option Z * option Z)",
+         "iterator": "iterator"}
 # the kinds of an `operand` (SrcPrelude.operand), their fields and the class each one stands for
 OPERAND = (("OAddr", ("ver", "v")), ("ONet", ("ver", "v", "p")), ("ORng", ("ver", "s", "e")), ("OOther", ()))
 KINDCLASS = {"OAddr": "IPAddress", "ONet": "IPNetwork", "ORng": "IPRange"}
@@ -166,7 +179,8 @@ def bad(node, why, fn=None):
 
 
 def mangle(recv, name, prefix=""):
-    return "src_%s_%s" % (recv, name.strip("_")) if recv else "src_%s%s" % (prefix, name)
+    name, _, variant = name.partition(":")          # "method:variant" = a specialisation of the method (see UNITS)
+    return ("src_%s_%s" % (recv, name.strip("_")) if recv else "src_%s%s" % (prefix, name)) + ("_" + variant if variant else "")
 
 
 def dotted(node):
@@ -249,7 +263,7 @@ def is_set(t):
 
 def is_value(t):
     """types whose terms are first-class Coq values that a loop or a join can carry"""
-    return t in ("int", "bool", "net", "optint") or (isinstance(t, tuple) and t[0] in ("list", "tup", "set"))
+    return t in ("int", "bool", "net", "optint", "iterator") or (isinstance(t, tuple) and t[0] in ("list", "tup", "set"))
 
 
 def parse_type(s):
@@ -314,6 +328,22 @@ def pattern(names):
 
 def unparen(s):
     return re.sub(r"^\((.*)\)$", r"\1", s)
+
+
+def compat_ok(name):
+    """is `name` bound in netaddr/compat.py only by assignments of the expressions COMPAT lists for it?  (trusted reading:
+    _sys_maxint = sys.maxsize, _iter_range = range)"""
+    fn = "netaddr/compat.py"
+    text = open(os.path.join(REPO, fn), encoding="utf-8").read()
+    binds = [n for n in ast.walk(ast.parse(text)) if (isinstance(n, (ast.FunctionDef, ast.ClassDef)) and n.name == name)
+             or (isinstance(n, ast.alias) and (n.asname or n.name) == name)
+             or (isinstance(n, (ast.Assign, ast.AugAssign, ast.AnnAssign, ast.For, ast.With, ast.NamedExpr)) and any(
+                 isinstance(t, ast.Name) and t.id == name and isinstance(t.ctx, ast.Store) for t in ast.walk(n)
+                 if not isinstance(n, ast.For) or t in ast.walk(n.target)))]
+    if not binds or any(not (isinstance(b, ast.Assign) and len(b.targets) == 1 and isinstance(b.targets[0], ast.Name)
+                             and dotted(b.value) in COMPAT.get(name, ())) for b in binds):
+        bad(binds[-1] if binds else None, "%s is not bound in compat.py the way the translator assumes" % name, fn)
+    return True
 
 
 class Module:
@@ -425,12 +455,13 @@ class Fn:
         self.tr, self.recv, self.name, self.mod = tr, recv, name, tr.mod
         self.file = tr.out or (FILE_OF.get(name, FILES[0]) if recv is None else FILES[0])
         self.cname = tr.mangle(recv, name)
+        self.pyname = pyname = name.partition(":")[0]
         if recv is None:
-            self.owner, self.f, self.is_prop = None, self.mod.function(name), False
+            self.owner, self.f, self.is_prop = None, self.mod.function(pyname), False
         else:
-            r = self.mod.lookup(recv, name)
+            r = self.mod.lookup(recv, pyname)
             if r is None:
-                bad(None, "%s.%s not found" % (recv, name))
+                bad(None, "%s.%s not found" % (recv, pyname))
             self.owner, self.f, self.is_prop = r
         self.statevars, self.mutating, self.valued = [], False, True
         if recv in STATEVARS:
@@ -444,6 +475,9 @@ class Fn:
         if recv is not None:
             self.attrs = {"self._module.version": ("int", "ver"),
                           "self._module.width": ("int", "w"), "self._module.max_int": ("int", "(max_int_w w)")}
+        for x, (ty, term) in UNIT_NAMES.get(tr.out, {}).items():
+            if self.mod.imports.get(x) == "netaddr.compat." + x and compat_ok(x):
+                self.attrs[x] = (ty, term)
         for m, _ in STRATEGY:
             if self.mod.imports.get("_" + m) == "netaddr.strategy." + m:
                 for c in ("width", "version", "max_int"):
@@ -462,7 +496,7 @@ class Fn:
         loops = sorted((n for n in ast.walk(self.f) if isinstance(n, (ast.For, ast.While))), key=lambda n: (n.lineno, n.col_offset))
         self.loopno = {id(n): i + 1 for i, n in enumerate(loops)}
         env = {"@taint": frozenset(), "@mut": None, "@break": None, "@continue": None, "@raw": frozenset(), "@lret": False}
-        self.params = []
+        self.params, self.ptypes_declared = [], set(ptypes)
         for attr, ty in STATEVARS.get(recv, ()):         # the object's state, passed like a leading parameter
             ty = parse_type(ty)
             cn = self.coqname(self.f, "self" + attr)
@@ -509,7 +543,7 @@ class Fn:
         f, fn = copy.deepcopy(f), self
         names = ["self" + a for a, _ in STATEVARS[self.recv]]
         paths = {"self." + a: "self" + a for a, _ in STATEVARS[self.recv]}
-        self.mutating = self.method_mutates(self.name)
+        self.mutating = self.method_mutates(self.pyname)
         isnone = lambda v: v is None or (isinstance(v, ast.Constant) and v.value is None)
         rets = [n for n in ast.walk(f) if isinstance(n, ast.Return)]
         self.valued = any(not isnone(n.value) for n in rets)
@@ -734,6 +768,8 @@ class Fn:
                 return env[node.id]
             if node.id in ("IPAddress", "IPNetwork") and node.id in self.mod.classes:
                 return ("cls", node.id)
+            if node.id in self.attrs and not node.id.startswith("self"):
+                return self.attrs[node.id]
             bad(node, "unknown (or possibly unbound) name %s" % node.id)
         if isinstance(node, ast.Attribute):
             path = dotted(node)
@@ -924,6 +960,28 @@ class Fn:
             if f.id == "bool" and ty in ("int", "bool"):
                 return ("bool", "(negb (%s =? 0))" % t if ty == "int" else t)
             bad(node, "%s() of %s" % (f.id, show(ty)))
+        if (isinstance(f, ast.Name) and f.id == "len" and "len" not in env and not self.mod.toplevel("len") and len(node.args) == 1
+                and not node.keywords and isinstance(node.args[0], ast.Call) and dotted(node.args[0].func) == "_iter_range"
+                and "_iter_range" not in env and self.mod.imports.get("_iter_range") == "netaddr.compat._iter_range"
+                and compat_ok("_iter_range") and len(node.args[0].args) == 3 and not node.args[0].keywords):
+            a, b, c = [self.int_(x, env) for x in node.args[0].args]     # len(range(a, b, c)): Model/PySlice.v (ValueError, OverflowError)
+            return ("out", "int", "(py_range_len %s %s %s)" % (a, b, c))
+        if (isinstance(f, ast.Attribute) and f.attr == "indices" and isinstance(f.value, ast.Name)
+                and env.get(f.value.id, ("",))[0] == "slice" and len(node.args) == 1 and not node.keywords):
+            a, b, c = self.fresh(), self.fresh(), self.fresh()           # slice.indices(length): Model/PySlice.v
+            return ("out", ("tup", ("int", "int", "int")), "(let '(%s, %s, %s) := %s in py_slice_indices %s %s %s %s)" % (
+                a, b, c, env[f.value.id][1], a, b, c, self.int_(node.args[0], env)))
+        if isinstance(f, ast.Name) and f.id == "iter_iprange" and f.id not in env and f.id in [
+                n.name for n in self.mod.tree.body if isinstance(n, ast.FunctionDef)]:
+            g = self.mod.function("iter_iprange")      # a generator function: the call runs nothing, the object is its arguments
+            if ([x.arg for x in g.args.args] != ["start", "end", "step"] or [const_int(d) for d in g.args.defaults] != [1]
+                    or not any(isinstance(n, ast.Yield) for n in ast.walk(g)) or node.keywords or len(node.args) not in (2, 3)):
+                bad(node, "iter_iprange is not the generator iter_iprange(start, end, step=1), or is called with keywords")
+            (ta, a), (tb, b) = self.ex(node.args[0], env), self.ex(node.args[1], env)
+            if ta != "obj" or tb != "obj":
+                bad(node, "iter_iprange of something other than two IPAddress objects")
+            step = self.int_(node.args[2], env) if len(node.args) == 3 else "1"
+            return ("iterator", "(ItIprange %s %s %s %s %s)" % (a[0], a[2], b[0], b[2], step))
         if isinstance(f, ast.Name) and f.id not in env and not self.mod.toplevel(f.id) and f.id in ("sorted", "set", "list"):
             if f.id == "sorted":
                 return self.sorted_(node, env)
@@ -993,7 +1051,9 @@ class Fn:
         if isinstance(s, (ast.While, ast.For)):
             return self.loop(s, rest, env, k, after)
         if isinstance(s, ast.Try):
-            return self.try_next(s, env, go)
+            if len(s.handlers) == 1 and dotted(s.handlers[0].type) == "StopIteration":
+                return self.try_next(s, env, go)
+            return self.try_except(s, rest, env, k, after)
         if isinstance(s, (ast.Break, ast.Continue)):
             h = env["@break" if isinstance(s, ast.Break) else "@continue"]
             if h is None:
@@ -1042,6 +1102,8 @@ class Fn:
             ir = self.leaf(env, "obj", r[1][3])
         elif r[0] in ("int", "bool", "none") or is_value(r[0]):
             ir = self.leaf(env, r[0], r[1])
+        elif isinstance(r[0], tuple) and r[0][0] == "iter" and r[1] == "[]":
+            ir = self.leaf(env, "iterator", "ItEmpty")          # iter([]) (or an exhausted iterator): ListLike.ItEmpty
         else:
             bad(s, "return of a %s value" % show(r[0]))
         return self.wrap(self.take_pre(), ir)
@@ -1205,6 +1267,16 @@ class Fn:
             t, neg = t.operand, True
         if isinstance(t, ast.Call) and dotted(t.func) == "isinstance":
             return self.isinstance_(s, t, neg, rest, env, k, after)
+        if isinstance(t, ast.Call) and dotted(t.func) == "hasattr" and "hasattr" not in env and not self.mod.toplevel("hasattr"):
+            # hasattr(<parameter>, '<name>'): decided by the declared type of the parameter
+            if not (len(t.args) == 2 and not t.keywords and isinstance(t.args[0], ast.Name) and t.args[0].id in [x.arg for x in self.f.args.args]
+                    and isinstance(t.args[1], ast.Constant) and isinstance(t.args[1].value, str) and t.args[0].id in env):
+                bad(s, "hasattr test other than hasattr(<parameter>, '<name>')")
+            ty = env[t.args[0].id][0]
+            if t.args[0].id not in self.ptypes_declared or (ty if isinstance(ty, str) else ty[0], t.args[1].value) not in HASATTR:
+                bad(s, "hasattr(%s, %r) is not decided by the declared type %s" % (t.args[0].id, t.args[1].value, show(ty)))
+            yes = HASATTR[(ty if isinstance(ty, str) else ty[0], t.args[1].value)] != neg
+            return self.block((s.body if yes else s.orelse) + rest, env, k, after)
         c = self.bool_(s.test, env)
         pre = self.take_pre()
         exits = (ast.Return, ast.Raise, ast.Break, ast.Continue, ast.Try)
@@ -1276,6 +1348,49 @@ class Fn:
                 bad(s, "isinstance against something other than a class name")
             return self.block((yes if self.isinst(s, ty[1], t.args[1].id) else no) + rest, env, k, after)
         bad(s, "isinstance test on %s, which is neither an `sarg` nor an `operand` parameter" % x)
+
+    def try_except(self, s, rest, env, k, after):
+        """try: body / except E1: raise E2(..)  ->  do <variables assigned in body> <- py_except E1 E2 (body); rest.
+        The handler covers exactly the body; E1 is matched by class (no listed exception class derives from another one)."""
+        h = s.handlers[0] if len(s.handlers) == 1 else None
+        exits = (ast.Return, ast.Break, ast.Continue, ast.Try, ast.While, ast.For)
+        if (h is None or s.orelse or s.finalbody or not isinstance(h.type, ast.Name) or h.type.id not in EXN or h.type.id in env
+                or self.mod.toplevel(h.type.id) and h.type.id not in self.mod.imports
+                or len(h.body) != 1 or not isinstance(h.body[0], ast.Raise) or env["@mut"]
+                or any(isinstance(n, exits) for st in s.body for n in ast.walk(st))):
+            bad(s, "try statement other than `try: <assignments, if, raise> / except E1: raise E2(..)`")
+        if h.name and any(isinstance(n, ast.Name) and n.id == h.name for st in rest + after for n in ast.walk(st)):
+            bad(s, "exception variable %s used after the handler" % h.name)
+        e2 = self.block(h.body, {**env, "@break": None}, None, [])[1]
+        names, ends = assigned_names(s.body), []
+
+        def end(e):
+            ends.append(e)
+            return ("jret", e)
+        body = self.block(s.body, env, end, rest + after)
+        exported = [x for x in names if ends and all(x in e and (is_value(e[x][0]) or e[x][0] == "obj") for e in ends)]
+        for key, val in env.items():                # compile-time bindings must come out unchanged, or be dead
+            if not key.startswith("@") and key not in exported and any(e.get(key) != val for e in ends):
+                if key in loaded_names(rest + after):
+                    bad(s, "%s is rebound inside try to something that is no Coq value and read afterwards" % key)
+        env = dict(env)
+        for x in names:
+            env.pop(x, None)
+        cns = []
+        for x in exported:
+            for e in ends[1:]:
+                unify(s, e[x][0], ends[0][x][0], "ends of the try body")
+            cn = self.coqname(s, x)
+            cns.append(cn)
+            env[x] = ("obj", self.objvar(cn)) if ends[0][x][0] == "obj" else (ends[0][x][0], cn)
+        env["@taint"] = frozenset().union(env["@taint"], *[e["@taint"] for e in ends]) - (set(names) - set(exported))
+
+        def close(ir):
+            if ir[0] == "jret" and isinstance(ir[1], dict):
+                return ("jret", tuple_term([ir[1][x][1][3] if ir[1][x][0] == "obj" else ir[1][x][1] for x in exported]))
+            return tuple(close(x) if isinstance(x, tuple) and x and isinstance(x[0], str) else
+                         [(kd, ns, close(sub)) for kd, ns, sub in x] if isinstance(x, list) else x for x in ir)
+        return ("try", h.type.id, e2, pattern(cns), close(body), self.block(rest, env, k, after))
 
     def try_next(self, s, env, go):
         """try: x = [IPNetwork(]_iter_next(it)[)] ... except StopIteration: raise E(...)  ->  match it with [] => Raise E | x :: it => ..."""
@@ -1421,14 +1536,14 @@ class Fn:
     def children(ir):
         k = ir[0]
         return ([ir[3]] if k in ("let", "bind") else [ir[2], ir[3]] if k in ("if", "match", "join") else [ir[4], ir[5]] if k == "next"
-                else [a[2] for a in ir[2]] if k == "omatch" else [ir[4]] if k == "lmatch" else [])
+                else [a[2] for a in ir[2]] if k == "omatch" else [ir[4]] if k == "lmatch" else [ir[4], ir[5]] if k == "try" else [])
 
     def leaves(self, ir):
         return [ir] if ir[0] in ("ret", "raise") else [x for sub in self.children(ir) for x in self.leaves(sub)]
 
     def effects(self, ir):
         """can evaluating this IR raise (does it have to live in `outcome`)?"""
-        return ir[0] in ("raise", "bind", "next") or (ir[0] == "ret" and ir[1] != "@loop" and ir[3]) or (ir[0] == "lret" and ir[3]) or any(
+        return ir[0] in ("raise", "bind", "next", "try") or (ir[0] == "ret" and ir[1] != "@loop" and ir[3]) or (ir[0] == "lret" and ir[3]) or any(
             self.effects(x) for x in self.children(ir))
 
     def finish(self):
@@ -1485,6 +1600,9 @@ class Fn:
         if k == "next":
             return "match %s with\n%s| [] =>\n%s%s\n%s| %s :: %s =>\n%s%s\n%send" % (
                 ir[1], ind, i2, sub(ir[4]), ind, ir[2], ir[3], i2, sub(ir[5]), ind)
+        if k == "try":
+            return "do %s <- py_except %s %s\n%s  (%s);\n%s%s" % (ir[3], ir[1], ir[2], ind, self.render(ir[4], ind + "   ", True, False), ind,
+                                                                   self.render(ir[5], ind, oc, optional))
         if k == "lmatch":
             return "match %s with\n%s| inl %s => %s\n%s| inr %s =>\n%s%s\n%send" % (
                 ir[1], ind, ir[2], ("Ok %s" if oc else "%s") % ir[2], ind, ir[3], i2, sub(ir[4]), ind)
@@ -1501,7 +1619,9 @@ class Fn:
     def what(self):
         if self.recv is None:
             return self.name
-        what = "%s.%s%s" % (self.owner, self.name, " (property)" if self.is_prop else "")
+        what = "%s.%s%s" % (self.owner, self.pyname, " (property)" if self.is_prop else "")
+        if self.name != self.pyname:
+            what += ", specialised to %s" % ", ".join("%s : %s" % (cn, show(ty)) for cn, ty in self.params)
         return what + (", receiver class %s" % self.recv if self.owner != self.recv else "")
 
     def text(self):
@@ -1529,6 +1649,9 @@ class Translator:
     def mangle(self, recv, name):
         return mangle(recv, name, self.prefix)
 
+    def owner_of_samefile(self, name):
+        return self.parent.owner_of(name) if (self.parent is not None and self.parent.fn == self.fn) else None
+
     def owner_of(self, name):
         """the translator that holds the module-level function `name` as seen from this file: this one, or (for a name imported
         from netaddr.ip) the translator of netaddr/ip/__init__.py; None if nobody lists it"""
@@ -1536,7 +1659,7 @@ class Translator:
             return self
         if self.parent is not None and self.mod.imports.get(name) == "netaddr.ip." + name and self.parent.owner_of(name):
             return self.parent
-        return None
+        return self.owner_of_samefile(name)
 
     def modof(self, cls):
         """the parsed module that defines class `cls` as seen from this file (this one, or netaddr/ip/__init__.py for an import)"""
@@ -1550,6 +1673,8 @@ class Translator:
             return self.owner_of(name).get(recv, name, node)
         if recv is not None and self.modof(recv) is not self.mod:
             return self.parent.get(recv, name, node)
+        if self.parent is not None and self.parent.fn == self.fn and not any(w[:2] == key for w in self.specs):
+            return self.parent.get(recv, name, node)        # a second unit over the same file: everything else is the first one's
         if key in self.failed:
             bad(node, "depends on untranslatable %s" % self.mangle(*key))
         if key in self.active:
